@@ -104,17 +104,15 @@ def solveRankDef (m : Nat) (A0 : FloatArray) (r0 : Array F) (tol : F) : Array F 
 
 def flat (a : Array F) : FloatArray := FloatArray.mk a
 
-/-- materialise a function-valued vector (identity extensionally) -/
-def mat {n : Nat} (v : Vec F n) : Vec F n := toVec (ofVec v)
-
-/-- `C08.loopFD`, evaluated stage by stage (`loopFD_stages`: the same value) with every intermediate vector materialised -/
+/-- `C08.loopFD`, evaluated stage by stage (`loopFD_stages`: the same value); every intermediate vector is materialised
+as an `Array` (data, evaluated once) before it is fed to the next stage -/
 def loopFDStaged {m n : Nat} (minv : Vec F n → Vec F n) (pinv : Vec F m → Vec F m) (G : Mat F m n) (f : Vec F n) (b : Vec F m) :
     Array F × Array F :=
-  let u0 := mat (stageUdot0 minv f)
-  let rhs := mat (stageRhs G u0 b)
-  let lam := mat (stageLam pinv rhs)
-  let udot := stageUdot minv G f lam
-  (ofVec udot, ofVec lam)
+  let u0a : Array F := ofVec (stageUdot0 minv f)
+  let rhsa : Array F := ofVec (stageRhs G (toVec u0a) b)
+  let lama : Array F := ofVec (stageLam pinv (toVec rhsa))
+  let udota : Array F := ofVec (stageUdot minv G f (toVec lama))
+  (udota, lama)
 
 def rowsOf (m n : Nat) (a : Array F) : Array (Array F) := (Array.range m).map (fun i => a.extract (i * n) (i * n + n))
 
